@@ -78,6 +78,13 @@ def grep_forbidden(modules):
     return hits, sorted(seen)
 
 
+def recheck(modules, timeout=2400):
+    """Replay the compiled .olean files of the given modules (proof terms included) through `leanchecker`, the
+    toolchain's independent re-checker of the kernel.  Returns (ok, log tail)."""
+    p = subprocess.run(['lake', 'env', 'leanchecker'] + list(modules), cwd=LEAN_DIR, capture_output=True, text=True, timeout=timeout)
+    return p.returncode == 0, (p.stdout + p.stderr)[-600:]
+
+
 def audit(theorems, modules):
     """#print axioms for every named theorem. Returns dict name -> list of axioms, or None when missing."""
     if not theorems:
